@@ -292,7 +292,8 @@ theorem chords_coincident_iff (s : NoteSeq) (start end_ spb : Int) (hspb : steps
     · intro h; exact absurd h hc
 
 /-- otherwise event `i` is the chord in force at step `start + i`: the text of the last chord annotation (in
-step order, ties in storage order) at or before that step, `NO_CHORD` if there is none -/
+`(step, time)` order — `chords_order` —, annotations equal in both in storage order) at or before that step,
+`NO_CHORD` if there is none -/
 theorem chords_steps (s : NoteSeq) (start end_ spb : Int) (hspb : stepsPerBar s = .ok spb)
     (hse : start < end_) (hnc : ¬ ChordsCoincident s start end_) :
     ∃ E, chordsFromQuantized s start end_ = .ok ⟨E, start, end_, spb, s.spq⟩ ∧
@@ -302,6 +303,14 @@ theorem chords_steps (s : NoteSeq) (start end_ spb : Int) (hspb : stepsPerBar s 
   rcases chords_top s start end_ spb hspb hse with ⟨hc, _⟩ | ⟨_, E, hE, hl, hs⟩
   · exact absurd hc hnc
   · exact ⟨E, hE, hl, hs⟩
+
+/-- the list `chords_steps` reads the chord in force from is in the order of the sort key `(quantized_step, time)`
+and is a rearrangement of the chord-symbol annotations: among chords quantized onto one step the one with the
+latest unquantized time is in force afterwards -/
+theorem chords_order (s : NoteSeq) :
+    (chordAnns s).Pairwise ChordOrd ∧
+    (chordAnns s).Perm (s.texts.filter (fun a => a.kind == Gen.CHORD_SYMBOL)) :=
+  ⟨chordAnns_sorted s, List.mergeSort_perm _ _⟩
 
 /-! ## NotePerformance -/
 
@@ -914,11 +923,15 @@ theorem kept_stop (gap : Int) : ∀ (ns : List Note) (k last : Note),
           omega
         · exact ih n last hs.2 hl n' h hlt
 
-/-- every selected note up to the last kept onset shares its onset with a kept note that is at least as high -/
+/-- every selected note up to the last kept onset shares its onset with a kept note that is higher, or of the same
+pitch and not later in (unquantized) start time: on each onset the melody keeps the highest note, and among notes
+of that pitch the one starting first — the tie-break of the sort key `(step, −pitch, start_time)`; only notes
+equal in all three are left in storage order -/
 theorem kept_top (gap : Int) : ∀ (ns : List Note) (k last : Note),
     (k :: ns).Pairwise MelOrd →
     (k :: keptFrom gap k ns).getLast? = some last →
-    ∀ n ∈ ns, n.qs ≤ last.qs → ∃ x ∈ k :: keptFrom gap k ns, x.qs = n.qs ∧ n.pitch ≤ x.pitch := by
+    ∀ n ∈ ns, n.qs ≤ last.qs → ∃ x ∈ k :: keptFrom gap k ns, x.qs = n.qs ∧
+      (n.pitch < x.pitch ∨ (n.pitch = x.pitch ∧ x.start ≤ n.start)) := by
   intro ns
   induction ns with
   | nil => intro k last _ _ n hn; simp at hn
@@ -935,7 +948,10 @@ theorem kept_top (gap : Int) : ∀ (ns : List Note) (k last : Note),
       rcases List.mem_cons.mp hn' with h | h
       · subst h
         refine ⟨k, List.mem_cons_self .., heq.symm, ?_⟩
-        rcases hkn with h | h <;> omega
+        rcases hkn with h | ⟨_, h | ⟨h, h'⟩⟩
+        · omega
+        · exact Or.inl h
+        · exact Or.inr ⟨h, h'⟩
       · exact ih k last hkns hl n' h hle
     · rename_i hne
       rw [if_neg hne]
@@ -955,9 +971,16 @@ theorem kept_top (gap : Int) : ∀ (ns : List Note) (k last : Note),
         rw [List.getLast?_cons_cons] at hl
         rcases List.mem_cons.mp hn' with h | h
         · subst h
-          exact ⟨n', List.mem_cons_of_mem _ (List.mem_cons_self ..), rfl, Int.le_refl _⟩
+          exact ⟨n', List.mem_cons_of_mem _ (List.mem_cons_self ..), rfl, Or.inr ⟨rfl, Rat.le_refl⟩⟩
         · obtain ⟨x, hx, hxq, hxp⟩ := ih n last hs.2 hl n' h hle
           exact ⟨x, List.mem_cons_of_mem _ hx, hxq, hxp⟩
+
+/-- the list `melody_steps` and the `kept_*` theorems speak about is in the order of the sort key
+`(quantized_start_step, −pitch, start_time)` and is a rearrangement of the selected notes -/
+theorem melody_order (s : NoteSeq) (ss inst : Int) (fd : Bool) :
+    ((s.notes.filter (melSel ss inst fd)).mergeSort melLe).Pairwise MelOrd ∧
+    ((s.notes.filter (melSel ss inst fd)).mergeSort melLe).Perm (s.notes.filter (melSel ss inst fd)) :=
+  ⟨melSorted _, List.mergeSort_perm _ _⟩
 
 /-- `dupFrom`: some selected note up to the last kept onset has an earlier-listed selected note on the same start
 step — two selected notes share a start step inside the extracted melody -/
@@ -1170,6 +1193,17 @@ example : keptFrom 16 (exNote 64 0 2) [exNote 55 0 2, exNote 60 2 4, exNote 60 4
     dupFrom 16 (exNote 64 0 2) [exNote 55 0 2, exNote 60 2 4, exNote 60 4 6, exNote 62 24 26] = true := by
   decide +kernel
 example := melody_empty exRel 0 2 1 true false true 16 exRel_spb (by decide)
+-- melody_order / chords_order / kept_top, and the tie-breaks of the two sort keys: of two notes of pitch 60 on step 0
+-- the one starting at 0 s precedes the one starting at 0.06 s (and not conversely); of two chords on step 2 the one at
+-- 0.25 s precedes the one at 0.26 s
+example := melody_order exRel 0 0 true
+example := chords_order exRel
+example := kept_top 16 [exNote 55 0 2, exNote 60 2 4, exNote 60 4 6, exNote 62 24 26] (exNote 64 0 2) (exNote 60 4 6)
+  (by rw [← exRel_melSorted]; exact (melody_order exRel 0 0 true).1) (by decide +kernel)
+example : MelOrd (exNote 60 0 1 100 0 false 0) (exNote 60 0 3 100 0 false (3/50)) ∧
+    ¬ MelOrd (exNote 60 0 3 100 0 false (3/50)) (exNote 60 0 1 100 0 false 0) := by unfold MelOrd; decide +kernel
+example : ChordOrd ⟨1/4, 2, 1, "x43"⟩ ⟨13/50, 2, 1, "x47"⟩ ∧ ¬ ChordOrd ⟨13/50, 2, 1, "x47"⟩ ⟨1/4, 2, 1, "x43"⟩ := by
+  unfold ChordOrd; decide +kernel
 example := bar_start 24 0 16 (by decide)
 
 
